@@ -286,12 +286,12 @@ def run(ctx):
         "correspondence_mismatches": len(mism) + len(kfail) + len(hmism),
         "exhaustive": False,
         "samples": [docs[i][1][:200] for i in rng.sample(range(len(docs)), 3)],
-        "explanation": "Proved for ALL texts (Props/C02.v): lexer::lex and parser::parse never panic and never run out of the stated fuel "
-                       "(C02_lex_total, C02_parse_total, C02_new_tree_total), table construction and semantic analysis cannot reach "
-                       "their two named panics. Validated by correspondence + fuzzing, not (yet) proved: the assert of "
-                       "Identifier::to_error and the index/slice sites of errors() (needs ranges-in-bounds for parser output), the 13 "
-                       "request handlers, the server runtime. AnalyzedSource::update CAN panic (known finding C02-incparse-panic, class: "
-                       "predicted by the model of the pinned incremental parser).",
+        "explanation": "Proved for ALL texts (Props/C02.v): AnalyzedSource::new never panics and terminates (lexer, parser with its fuel, "
+                       "table construction, semantic analysis: C02_new_doc_total), errors() never panics and every published range lies "
+                       "inside the document (C02_errors_total, C02_errors_inside). Validated by correspondence + fuzzing, not proved: the "
+                       "13 request handlers on arbitrary documents/positions (partial handler theorems are in C12-C17), the server runtime "
+                       "(stack depth: documents nested up to 400 levels are part of every run). AnalyzedSource::update CAN panic (known "
+                       "finding C02-incparse-panic, class: predicted by the model of the pinned incremental parser).",
     })
     ctx.level = "other"
     if ctx.thorough() and proved:
